@@ -13,6 +13,7 @@ import (
 	"fmt"
 	"go/ast"
 	"go/parser"
+	"go/printer"
 	"go/token"
 	"os"
 	"strconv"
@@ -74,6 +75,14 @@ func flagSet(s ast.Stmt) string {
 
 type pair struct{ k, v string }
 
+func exprText(fset *token.FileSet, e ast.Expr) string {
+	var b strings.Builder
+	if err := printer.Fprint(&b, fset, e); err != nil {
+		fail(err.Error())
+	}
+	return b.String()
+}
+
 func main() {
 	if len(os.Args) != 3 {
 		fail("usage: vlextab lexer.go out.v")
@@ -119,6 +128,7 @@ func main() {
 		fail("final switch, state list or token type list not found")
 	}
 	var finals, keywords, operators []pair
+	keywordKey, operatorKey := "", ""
 	var pending []string
 	hasDefaultPanic := false
 	for _, c := range final.Body.List {
@@ -144,7 +154,13 @@ func main() {
 		}
 		// outcome of this clause
 		tt, flag, table := "", "", ""
+		keyExpr := ""
 		for _, s := range cc.Body {
+			if as, ok := s.(*ast.AssignStmt); ok && len(as.Lhs) == 1 && len(as.Rhs) == 1 {
+				if id, ok := as.Lhs[0].(*ast.Ident); ok && id.Name == "lexeme" {
+					keyExpr = exprText(fset, as.Rhs[0])
+				}
+			}
 			if t := tokenTypeAssigned(s); t != "" {
 				tt = t
 			}
@@ -179,8 +195,10 @@ func main() {
 				}
 				if tt == "IDENTIFIER" {
 					keywords, table = tab, "keywords"
+					keywordKey = keyExpr
 				} else {
 					operators, table = tab, "operators"
+					operatorKey = keyExpr
 				}
 			}
 		}
@@ -229,6 +247,9 @@ func main() {
 	b.WriteString("Definition gen_final : list (string * string) :=\n  " + plist(finals) + ".\n\n")
 	b.WriteString("Definition gen_keywords : list (string * string) :=\n  " + plist(keywords) + ".\n\n")
 	b.WriteString("Definition gen_operators : list (string * string) :=\n  " + plist(operators) + ".\n\n")
+	b.WriteString("(* how the key looked up in each table is computed from the token's text *)\n")
+	b.WriteString("Definition gen_keyword_key : string := " + q(keywordKey) + ".\n")
+	b.WriteString("Definition gen_operator_key : string := " + q(operatorKey) + ".\n\n")
 	b.WriteString(fmt.Sprintf("Definition gen_final_has_default_panic : bool := %v.\n", hasDefaultPanic))
 	if err := os.WriteFile(os.Args[2], []byte(b.String()), 0o644); err != nil {
 		fail(err.Error())
